@@ -33,6 +33,11 @@ def gen_plan(rng):
         'rekey': {'c_bytes': rng.choice(THRESHOLDS),
                   's_bytes': rng.choice(THRESHOLDS)},
         'gap': rng.below(3),
+        # the link is lost a drawn number of steps after close(): whatever
+        # close() is still waiting for, the connection has to end (what was
+        # written may be lost then)
+        'cut': {'after': rng.below(6), 'how': rng.choice(['rst', 'eof'])}
+        if rng.chance(20) else None,
     }
 
 
@@ -44,6 +49,12 @@ def valid_plan(plan):
                 len(plan['chunks']) > 40 or plan['profile']['capacity'] or \
                 rk['c_bytes'] < 1 or rk['s_bytes'] < 1 or \
                 not 0 <= plan['warm'] <= 100000 or not 0 <= plan['gap'] <= 8:
+            return False
+
+        cut = plan.get('cut')
+
+        if cut is not None and (not 0 <= cut['after'] <= 20 or
+                                cut['how'] not in ('rst', 'eof')):
             return False
 
         # everything fits the default window: drain() then means "handed to
@@ -130,6 +141,14 @@ def run_plan(plan, sched_seed=None, sched_replay=None):
         res['closed'] = True
         conn.close()
 
+        if plan.get('cut'):
+            for _ in range(plan['cut']['after']):
+                await sim.pause('cut')
+
+            if sim.net.connections:
+                sim.net.connections[0].cut(plan['cut']['how'])
+                sim.probes['link_cut_after_close'] += 1
+
     async def main():
         acc = await asyncssh.listen(
             '127.0.0.1', 22, server_factory=lambda: Srv(world),
@@ -179,7 +198,12 @@ def run_plan(plan, sched_seed=None, sched_replay=None):
         else:
             sim.probes['closed_outside_kex'] += 1
 
-        if got != want:
+        if plan.get('cut'):
+            # only the order and the end are checked
+            if not want.startswith(got):
+                world.violation('stream-mismatch', 'delivered data is not '
+                                'a prefix of what was written')
+        elif got != want:
             kind = 'written-data-lost-at-close' if want.startswith(got) \
                 else 'stream-mismatch'
             world.violation(
@@ -205,6 +229,12 @@ def run_plan(plan, sched_seed=None, sched_replay=None):
                                 (s.lost, s.after_lost))
     elif not sim.loop.capped and not world.violations:
         world.violation('hang', 'writer never got to close the connection')
+
+    if not sim.loop.capped and res['closed'] and sim.hung():
+        world.violation('hang', 'after close()%s the connection never '
+                        'finished closing: %r' %
+                        (' and loss of the link' if plan.get('cut') else '',
+                         sim.hung()), sig='close')
 
     sim.probes['pop_closing'] += 1
     world.check_loop_health(internal_errors=True)
